@@ -97,8 +97,13 @@ def oracle(spec, res):
     if len(f2) == 0 and (v2.shape != (0, 3) or f2.shape != (0, 3)):
         bad("empty/shape", "nothing kept but shapes are %s %s" % (v2.shape, f2.shape))
     base = tris_of(v2, f2, m2, q)
-    # idempotent: slicing the result again with the same plane returns the same set of triangles
-    if len(f2):
+    # idempotent: slicing the result again with the same plane returns the same set of triangles.
+    # The new vertices lie on the plane only up to rounding: their recomputed offsets are of order
+    # eps * |n| * (size of the coordinates).  When that is not clearly below the 1e-8 merge tolerance the
+    # classification of those vertices in the second slice is not determined (the exclusion the property makes for
+    # vertices within rounding error of the threshold), so idempotence is only judged below that scale.
+    rho = 64 * 2.0 ** -52 * float(np.linalg.norm(n)) * max(float(np.max(np.abs(V))), float(np.max(np.abs(o))))
+    if len(f2) and rho < sc.TOL / 4:
         # (faces descended from unselected faces stay unselected)
         mask2 = None if mask is None else np.array([bool(mask[s_]) for s_ in m2], dtype=bool)
         v3, f3, m3 = sc.slice_impl(v2, f2, o, n, mask2)
@@ -133,6 +138,7 @@ def oracle(spec, res):
             inplane = [k for k, f in enumerate(F) if all(d[i] == 0 for i in f)]
             tot = area2(V, F) + area2(V, F[inplane] if inplane else np.zeros((0, 3), dtype=np.int64))
             got = area2(v2, f2) + area2(vb, fb)
-            if abs(tot - got) > 1e-6 * max(tot, scale * scale * 1e-9):
+            # (areas are computed in floating point here: allow 1e-6 relative plus rounding noise of degenerate faces)
+            if abs(tot - got) > 1e-6 * tot + 1e-9 * scale * scale:
                 bad("complementary", "area in front %.9g + behind %.9g != input %.9g (+ in-plane faces)" % (area2(v2, f2), area2(vb, fb), tot))
     return list(out.items())
